@@ -1,38 +1,95 @@
-(* Prop_C15.v — property C15: runtime errors name a real failing step (PARTIAL).
-   Proved on the evaluator model: the ranking rule of addDeepestError — the selected error is always
-   one of the candidates; a failure further along the path (shorter remaining text) replaces the
-   remembered one and a shallower one never does; at the same depth a type mismatch yields to the
-   next candidate while a missing member / failed function is kept — and what the single-valued steps
-   report (MemberNotExist when the object lacks the key, TypeUnmatched with the expected kind and the
-   Go type found otherwise, each carrying the failing node's own text).  From C03_invariant: an error
-   is returned exactly when nothing was selected.
-   NOT proved: the global statement "the reported error is select(failure events of the specification)"
-   for multi-branch paths.  It is decided by the correspondence check (error type, path text, expected
-   and found compared exactly with the model on every failing generated pair) and by an independent
-   first-failing-step oracle for single-valued paths. *)
-From JP Require Import Eval WF EvalInv3 ErrFacts.
+(* Prop_C15.v — property C15: runtime errors name a real failing step — the deepest one, of the right kind.
+   On the evaluator model, for every well-formed tree whose nodes carry their remaining-path text
+   (wf_node, ctext_ok: decidable, evaluated by the driver on every tree the parser model builds), every
+   document and every state:
+   * C15_error_is_specified: a call fails with exactly the error of the stateless specification
+     ErrSpec.serr, and succeeds exactly when that specification reports none;
+     C15_error_iff_nothing_selected: which is exactly when the path selects nothing (Spec.sp);
+   * C15_error_is_real_and_deepest: the reported error is one of the failure events of this path on this
+     document (ErrReal.events: for every node the preceding steps reach, the failure of the step applied
+     there), it carries the text of a step of the path as written, no failure event lies further along
+     the path (shorter remaining text), and a type mismatch is reported only if every failure event at
+     that depth is a type mismatch (a missing member or a failed function is preferred);
+   * what each kind of step reports for itself: MemberNotExist when the object lacks the key,
+     TypeUnmatched with the expected kind and the Go type found otherwise (C15_name_step_*,
+     C15_subscript_step_type), and the ranking rule itself (C15_select_spec over any candidate list).
+   Outside the theorems: that the Go evaluator behaves like Eval.v and the parser builds these trees
+   (correspondence check: error type, path text, expected and found compared exactly with the model on
+   every failing generated pair; the driver also runs the specification next to the model). *)
+From JP Require Import Eval WF Spec ErrSpec EvalInv1 EvalInv3 ErrFacts ErrSelect ErrReal ErrTop.
 Open Scope string_scope.
+Open Scope list_scope.
 
-Theorem C15_selected_is_candidate_partial : forall err dl de,
+Theorem C15_error_is_specified : forall ffun afun regex_match,
+  (forall f v w, small v -> ffun f v = Some w -> small w) ->
+  (forall f l w, Forall small l -> afun f l = Some w -> small w) ->
+  forall t doc st, wf_node t = true -> small doc -> ok st ->
+  match fst (eval_run ffun afun regex_match t doc st) with
+  | OErr e => spec_error ffun afun regex_match t doc = Some e
+  | OOk _ => spec_error ffun afun regex_match t doc = None
+  | OPanic _ => False
+  end.
+Proof. exact eval_run_error. Qed.
+Print Assumptions C15_error_is_specified.
+
+Theorem C15_error_iff_nothing_selected : forall ffun afun regex_match,
+  (forall f v w, small v -> ffun f v = Some w -> small w) ->
+  (forall f l w, Forall small l -> afun f l = Some w -> small w) ->
+  forall t doc, wf_node t = true -> small doc ->
+  (spec_error ffun afun regex_match t doc = None <-> sp ffun afun regex_match t doc (Some [], doc) <> []).
+Proof. exact spec_error_iff_empty. Qed.
+Print Assumptions C15_error_iff_nothing_selected.
+
+Theorem C15_error_is_real_and_deepest : forall ffun afun regex_match,
+  (forall f v w, small v -> ffun f v = Some w -> small w) ->
+  (forall f l w, Forall small l -> afun f l = Some w -> small w) ->
+  forall t doc st e, wf_node t = true -> ctext_ok t = true -> small doc -> ok st ->
+  fst (eval_run ffun afun regex_match t doc st) = OErr e ->
+  In e (events ffun afun regex_match t doc (Some [], doc)) /\
+  In (err_basic e) (basics t) /\
+  (forall x, In x (events ffun afun regex_match t doc (Some [], doc)) -> depth_len e <= depth_len x)%nat /\
+  (is_type_err e = true ->
+   forall x, In x (events ffun afun regex_match t doc (Some [], doc)) -> depth_len x = depth_len e -> is_type_err x = true).
+Proof. exact eval_run_error_real. Qed.
+Print Assumptions C15_error_is_real_and_deepest.
+
+(* the ranking among the candidates of one multi-valued step *)
+Theorem C15_select_spec : forall es, (forall x, In x es -> (1 <= depth_len x)%nat) ->
+  match select es with
+  | None => es = []
+  | Some e => In e es /\ (forall x, In x es -> depth_len e <= depth_len x)%nat /\
+              (is_type_err e = true -> forall x, In x es -> depth_len x = depth_len e -> is_type_err x = true)
+  end.
+Proof. exact select_spec. Qed.
+Print Assumptions C15_select_spec.
+
+Theorem C15_selected_is_candidate : forall err dl de,
   snd (add_deepest err dl de) = Some err \/ snd (add_deepest err dl de) = de.
 Proof. exact add_deepest_choice. Qed.
-Theorem C15_deeper_wins_partial : forall err dl de, (depth_len err < dl)%nat -> add_deepest err dl de = (depth_len err, Some err).
+Theorem C15_deeper_wins : forall err dl de, (depth_len err < dl)%nat -> add_deepest err dl de = (depth_len err, Some err).
 Proof. exact add_deepest_deeper. Qed.
-Theorem C15_shallower_loses_partial : forall err dl de, (dl <> 0)%nat -> (dl < depth_len err)%nat -> add_deepest err dl de = (dl, de).
+Theorem C15_shallower_loses : forall err dl de, (dl <> 0)%nat -> (dl < depth_len err)%nat -> add_deepest err dl de = (dl, de).
 Proof. exact add_deepest_shallower. Qed.
-Theorem C15_tie_prefers_non_type_partial : forall err dl old, (dl <> 0)%nat -> dl = depth_len err ->
+Theorem C15_tie_prefers_non_type : forall err dl old, (dl <> 0)%nat -> dl = depth_len err ->
   add_deepest err dl (Some old) = (dl, Some (if is_type_err old then err else old)).
 Proof. exact add_deepest_tie. Qed.
-Print Assumptions C15_selected_is_candidate_partial.
-Print Assumptions C15_tie_prefers_non_type_partial.
+Print Assumptions C15_tie_prefers_non_type.
 
-Theorem C15_name_step_missing_partial : forall ffun afun rm key b next root l m c st, lookup m key = None ->
+Theorem C15_name_step_missing : forall ffun afun rm key b next root l m c st, lookup m key = None ->
   retrieve ffun afun rm (Node (KSingle key) b next) root (l, VObj m) c st = (c, Some (EMember b), st).
 Proof. exact name_step_missing. Qed.
-Theorem C15_name_step_type_partial : forall ffun afun rm key b next root l v c st, (forall m, v <> VObj m) ->
+Theorem C15_name_step_type : forall ffun afun rm key b next root l v c st, (forall m, v <> VObj m) ->
   retrieve ffun afun rm (Node (KSingle key) b next) root (l, v) c st = (c, Some (EType b "object" (go_type v)), st).
 Proof. exact name_step_type. Qed.
-Theorem C15_subscript_step_type_partial : forall ffun afun rm subs b next root l v c st, (forall xs, v <> VArr xs) ->
+Theorem C15_subscript_step_type : forall ffun afun rm subs b next root l v c st, (forall xs, v <> VArr xs) ->
   retrieve ffun afun rm (Node (KUnion subs) b next) root (l, v) c st = (c, Some (EType b "array" (go_type v)), st).
 Proof. exact subscript_step_type. Qed.
-Print Assumptions C15_name_step_type_partial.
+Print Assumptions C15_name_step_type.
+
+(* non-vacuity: a two-branch failure where the deeper branch wins *)
+Example C15_example :
+  let bb t ct := {| text := t; ctext := ct; vgroup := false; accessor := false |} in
+  let path := Node KRoot (bb "$" "$[*].a") (OSome (Node KWild (bb "[*]" "[*].a") (OSome (Node (KSingle "a") (bb ".a" ".a") ONone)))) in
+  let doc := VArr [VObj []; VNum (num_of_Z 1)] in
+  spec_error (fun _ _ => None) (fun _ _ => None) (fun _ _ => false) path doc = Some (EMember (bb ".a" ".a")).
+Proof. vm_compute. reflexivity. Qed.
